@@ -158,10 +158,16 @@ class C04(Check):
         for (kind, rel, thr, rep, fd, prev, cur, sc) in cases:
             m = _StubModel(cur, prev, sc)
             if kind == "sim":
-                c = SimTimeCondition(m, schedgen.REL_PY[rel], thr, repeat=(rep if rep else False))
+                tk, rk = ctx.rng.choice(schedgen.THR_KINDS), ctx.rng.choice(schedgen.REP_KINDS)
+                ctx.count("cond-arg-types:thr=%s" % tk)
+                if rep:
+                    ctx.count("cond-arg-types:repeat=%s" % rk)
+                c = SimTimeCondition(m, schedgen.REL_PY[rel], schedgen.typed_threshold(thr, tk), repeat=schedgen.typed_repeat(rep, rk))
                 lines.append("eval sim %s %d %d %d %d" % (rel, thr, rep, prev, cur))
             else:
-                c = TimeOfDayCondition(m, schedgen.REL_PY[rel], thr, repeat=bool(rep), first_day=fd)
+                tk = ctx.rng.choice(schedgen.THR_KINDS)
+                ctx.count("cond-arg-types:tod-thr=%s" % tk)
+                c = TimeOfDayCondition(m, schedgen.REL_PY[rel], schedgen.typed_threshold(thr, tk), repeat=bool(rep), first_day=fd)
                 lines.append("eval tod %s %d %d %d %d %d %d" % (rel, thr, rep, c._first_day, prev, cur, sc))
             v = bool(c.evaluate())
             b = c.backtrack
@@ -432,6 +438,26 @@ class C04(Check):
             out.append({"hyd": hyd, "rule": rng.choice([360, 600, hyd, 700]), "report": 0, "duration": (k + 3) * hyd, "start_clock": sc,
                         "controls": ctls, "init": init})
             ctx.count("same-step-designed")
+        return out
+
+    def _tie_schedules(self, ctx, n):
+        """designed: 2-3 time controls with the SAME instant, the SAME target and the SAME priority writing alternating values,
+        registration order shuffled: the code applies equal-priority controls of one instant in registration order (two stable
+        sorts), so the last registered decides (the model's `winner`: ties go to the later registration)"""
+        rng = ctx.rng
+        out = []
+        for _ in range(n):
+            hyd = rng.choice([1800, 3600])
+            t = rng.choice([hyd * rng.randint(0, 6), rng.randint(0, 6 * hyd)])
+            key = rng.randrange(schedgen.NT)
+            prio = rng.choice([3, 3, 1, 5])
+            m = rng.randint(2, 3)
+            init = {str(i): rng.randint(0, 1) for i in range(schedgen.NT)}
+            vals = [(j + rng.randint(0, 1)) % 2 for j in range(m)]
+            vals[-1] = 1 - init[str(key)]                     # the deciding control changes the target
+            ctls = [{"id": j, "kind": "P", "prio": prio, "cond": ("sim", "eq", t, 0), "then": [(key, vals[j])], "else": []} for j in range(m)]
+            out.append({"hyd": hyd, "rule": rng.choice([600, hyd]), "report": 0, "duration": 8 * hyd, "start_clock": 0, "controls": ctls, "init": init})
+            ctx.count("tie-designed")
         return out
 
     def _mixed_schedules(self, ctx, n):
@@ -719,6 +745,7 @@ class C04(Check):
         scheds += self._same_step_schedules(ctx, 16 if ctx.quick else 120)
         scheds += self._start_schedules(ctx, 16 if ctx.quick else 120)
         scheds += self._mixed_schedules(ctx, 16 if ctx.quick else 120)
+        scheds += self._tie_schedules(ctx, 12 if ctx.quick else 80)
         self._run_schedules(ctx, failures, broken, scheds, "random")
         self._rule_grid_oracle(ctx, failures)
         self._rule_priority_oracle(ctx, failures)
@@ -739,6 +766,7 @@ class C04(Check):
         scheds += self._same_step_schedules(ctx, 40)
         scheds += self._start_schedules(ctx, 40)
         scheds += self._mixed_schedules(ctx, 40)
+        scheds += self._tie_schedules(ctx, 30)
         self._run_schedules(ctx, failures, b2, scheds, "search")
         self._rule_grid_oracle(ctx, failures)
         self._rule_priority_oracle(ctx, failures)
